@@ -66,7 +66,10 @@ def End.nothingLost (e : End) : Prop := e.unfinished = 0 ∧ e.workersLeft = 0
 
 /-- Per client: `C` complete response, `P` partial response (truncated), `Z` connection closed without a byte,
 `T` nothing within the deadline although the connection is open, `R` connect refused, `h` a connection that
-only holds a worker (not judged). -/
+only holds a worker (not judged). A client that PIPELINED n requests on one connection: `C` all n responses,
+complete, in the order of the requests, nothing after them; `P` anything else that has bytes which are not
+that (a truncated response, a response out of order); `M` fewer than n responses (at least one), each complete,
+and the connection closed; `Z` / `T` as above (`T`: not all n at the deadline, connection open). -/
 structure Summary where
   wedged : Bool
   rebindOk : Bool
@@ -74,7 +77,9 @@ structure Summary where
   clients : List Char
 
 /-- `workers`: threads of the pool (0 for tokio); `must`: clients whose complete request had been handed to the
-pool before the signal was sent — their response must be complete. No client at all may see a truncated
+pool before the signal was sent — their response must be complete; for a pipelined client: whose connection had
+been handed to the pool and whose requests had ALL been written (plus a grace period) before the signal was
+sent — every one of them must be answered (`C`; `M` is not enough). No client at all may see a truncated
 response or be left hanging. -/
 def Summary.ok (workers : Nat) (must : List Nat) (s : Summary) : Bool :=
   !s.wedged && s.rebindOk && s.exited == workers &&
@@ -86,6 +91,7 @@ def Summary.reason (workers : Nat) (must : List Nat) (s : Summary) : String :=
   else if !s.rebindOk then "port-not-free"
   else if s.clients.any (· == 'P') then "response-truncated"
   else if s.clients.any (· == 'T') then "response-missing"
+  else if must.any (fun i => s.clients[i]? == some 'M') then "pipelined-request-not-answered"
   else if !must.all (fun i => s.clients[i]? == some 'C') then "dispatched-request-not-answered"
   else if s.exited != workers then "workers-left"
   else ""
